@@ -7,3 +7,74 @@ package auth
 //@   modifies everything
 //@   ensures [C10 C09] session_needs_email: result.1 == nil ==> result.0 != nil && called(@Redeem#1) && @Redeem#1.1 == nil && result.0 == @Redeem#1.0 && result.0.Email != ""
 //@   ensures [C10] no_session_on_error: result.1 != nil ==> result.0 == nil
+
+// ---- error rendering: the status given is the status answered (first write wins) --------------------------
+//@ func (p *Authenticator) ErrorResponse(rw http.ResponseWriter, req *http.Request, message string, code int)
+//@   modifies rw.$status, rw.$bodyWritten, hdrmap(rw.$hdr), ghost("$status"), ghost("$bodyWritten")
+//@   ensures status_is_code: old(rw.$status) == 0 && code != 0 ==> rw.$status == code
+//@   ensures status_kept: old(rw.$status) != 0 ==> rw.$status == old(rw.$status)
+
+// ---- middleware closures: the wrapped handler f is a sink -------------------------------------------------
+// secret(req): the client secret a request presents — form field first, X-Client-Secret header otherwise.
+//@ func (p *Authenticator) validateClientSecret$1(rw http.ResponseWriter, req *http.Request)
+//@   requires fresh_response: rw.$status == 0
+//@   let parsed = called(@ParseForm#1) && @ParseForm#1 == nil
+//@   let secret = formGet(at(@ParseForm#1, req.Form), "client_secret") != "" ? formGet(at(@ParseForm#1, req.Form), "client_secret") : hdrGet(at(@ParseForm#1, req.Header), "X-Client-Secret")
+//@   sink [C08] secret_gate: f requires parsed && at(@ParseForm#1, secret == p.ProxyClientSecret) && $arg0 == rw && $arg1 == req
+//@   ensures [C08] refused_is_error: !called(@f#1) ==> rw.$status == 401 || rw.$status == 500
+
+//@ func (p *Authenticator) validateClientID$1(rw http.ResponseWriter, req *http.Request)
+//@   requires fresh_response: rw.$status == 0
+//@   let parsed = called(@ParseForm#1) && @ParseForm#1 == nil
+//@   sink [C08] client_id_gate: f requires parsed && (@FormValue#1 != "" ? @FormValue#1 : @Get#1) == p.ProxyClientID && $arg0 == rw && $arg1 == req
+//@   ensures [C08] refused_is_error: !called(@f#1) ==> rw.$status == 401 || rw.$status == 500
+//@   ensures [C08] id_from_form_first: called(@FormValue#1) ==> arg(@FormValue#1, 1) == "client_id"
+
+//@ func (p *Authenticator) validateRedirectURI$1(rw http.ResponseWriter, req *http.Request)
+//@   requires fresh_response: rw.$status == 0
+//@   sink [C07] redirect_gate: f requires called(@ParseForm#1) && @ParseForm#1 == nil && called(@validRedirectURI#1) && @validRedirectURI#1 && arg(@validRedirectURI#1, 0) == formGet(at(@ParseForm#1, req.Form), "redirect_uri") && arg(@validRedirectURI#1, 1) == p.ProxyRootDomains && $arg0 == rw && $arg1 == req
+//@   ensures [C07] refused_is_400: !called(@f#1) ==> rw.$status == 400
+
+//@ func (p *Authenticator) validateSignature$1(rw http.ResponseWriter, req *http.Request)
+//@   requires fresh_response: rw.$status == 0
+//@   let F = at(@ParseForm#1, req.Form)
+//@   sink [C07] signature_gate: f requires called(@ParseForm#1) && @ParseForm#1 == nil && called(@validSignature#1) && @validSignature#1 && arg(@validSignature#1, 0) == formGet(F, "redirect_uri") && arg(@validSignature#1, 1) == formGet(F, "sig") && arg(@validSignature#1, 2) == formGet(F, "ts") && arg(@validSignature#1, 3) == p.ProxyClientSecret && $arg0 == rw && $arg1 == req
+//@   ensures [C07] refused_is_400: !called(@f#1) ==> rw.$status == 400
+
+//@ func (p *Authenticator) withMethods$1(rw http.ResponseWriter, req *http.Request)
+//@   requires fresh_response: rw.$status == 0
+//@   sink [C08] method_gate: f requires (req.Method in methodMap) && $arg0 == rw && $arg1 == req
+//@   ensures [C08] refused_is_405: !called(@f#1) ==> rw.$status == 405
+
+// ---- C07: the two predicates, against Go's own parse of the URI -----------------------------------------
+// U = what net/url made of the string. In-domain: the URI is non-empty, parses, has a host, and the host
+// name (without port) ends in one of the root domains or equals one without its leading dots.
+//@ func validRedirectURI(uri string, rootDomains []string) bool
+//@   modifies nothing
+//@   let U = @Parse#1.0
+//@   ensures [C07] in_domain_only: result <==> uri != "" && called(@Parse#1) && arg(@Parse#1, 0) == uri && @Parse#1.1 == nil && U.Host != "" && inDomain(U.Host, rootDomains)
+//@   loop 1
+//@     invariant forall j :: 0 <= j && j < $i ==> !(hasSuffix(urlHostname(U.Host), rootDomains[j]) || urlHostname(U.Host) == trimLeft(rootDomains[j], "."))
+
+// signedFresh: all four strings non-empty, the URI parses, the signature is base64, the timestamp is a
+// decimal number of seconds no older than five minutes at the instant of the check, and the signature is
+// the HMAC under the secret of the URI followed by that timestamp.
+//@ func validSignature(redirectURI string, sigVal string, timestamp string, secret string) bool
+//@   modifies clock
+//@   let ts = atoi(timestamp)
+//@   ensures [C07] signed_and_fresh: result <==> redirectURI != "" && sigVal != "" && timestamp != "" && secret != "" && called(@Parse#1) && arg(@Parse#1, 0) == redirectURI && @Parse#1.1 == nil && called(@DecodeString#1) && arg(@DecodeString#1, 0) == base64.URLEncoding && arg(@DecodeString#1, 1) == sigVal && @DecodeString#1.1 == nil && atoi_ok(timestamp) && clock - unixTime(ts) <= 300000000000 && @DecodeString#1.0 == hmacOf(secret, redirectURI + itoa(ts))
+
+//@ func redirectURLSignature(rawRedirect string, timestamp time.Time, secret string) []byte
+//@   modifies nothing
+//@   ensures [C07 C19] mac_of_uri_and_seconds: result == hmacOf(secret, rawRedirect + itoa((timestamp - unixTime(0)) / 1000000000))
+
+// ---- C08: /redeem answers with tokens only for a code that opened under the auth-code cipher and whose
+// session has not expired, and then with exactly that session's email and tokens ---------------------------
+//@ func (p *Authenticator) Redeem(rw http.ResponseWriter, req *http.Request)
+//@   requires fresh_response: rw.$status == 0
+//@   let S = @UnmarshalSession#1.0
+//@   let R = unbox($arg0, "auth.redeemResponse")
+//@   sink [C08] tokens_only_for_live_genuine_code: Marshal requires called(@UnmarshalSession#1) && @UnmarshalSession#1.1 == nil && arg(@UnmarshalSession#1, 0) == formGet(at(@ParseForm#1, req.Form), "code") && arg(@UnmarshalSession#1, 1) == p.AuthCodeCipher && S.RefreshDeadline >= old(clock) && S.LifetimeDeadline >= old(clock)
+//@   sink [C08] exactly_that_session: Marshal requires R.Email == S.Email && R.AccessToken == S.AccessToken && R.RefreshToken == S.RefreshToken
+//@   ensures [C08] ok_only_with_tokens: rw.$status == 200 ==> called(@Marshal#1) && @Marshal#1.1 == nil
+//@   ensures [C08] bad_code_is_401: called(@UnmarshalSession#1) && @UnmarshalSession#1.1 != nil ==> rw.$status == 401 && !called(@Marshal#1)
